@@ -137,13 +137,18 @@ SortOK(xs, r) ==
 \* ---------------------------------------------------------------- C03: hash agrees with equality
 \* history: sequence of <<normal form, digest record>>; a value seen before must produce the same digests
 HashLookup(hs, key) == SelectInSeq(hs, LAMBDA p : p[1] = key)
-HashDigest(r) == <<r.h, r.len, r.dh>>
+HashDigest(r) == <<r.h, r.len, r.dh, r.calls>>
 HashOK(hs, a, r) ==
   IF "h" \notin DOMAIN r THEN Bad("outcome-kind")
   ELSE LET k == HashLookup(hs, WNorm(a))
        IN IF k = 0 THEN OK ELSE Chk(hs[k][2] = HashDigest(r), "hash-differs-for-equal-values")
 HashRemember(hs, a, r) ==
   IF "h" \notin DOMAIN r \/ HashLookup(hs, WNorm(a)) # 0 THEN hs ELSE Append(hs, <<WNorm(a), HashDigest(r)>>)
+\* whenever the crate itself says two decimals are equal, it must have fed identical data for both;
+\* and whenever they ARE equal (by the specification) the data must be identical too
+EqHashOK(a, b, r) ==
+  IF "eq" \notin DOMAIN r THEN Bad("outcome-kind")
+  ELSE Chk((r.eq => r.ha = r.hb) /\ (WValEq(a, b) => r.ha = r.hb), "equal-values-hash-differently")
 \* a HashSet built from the values has exactly one entry per distinct value
 HashSetOK(xs, r) == IntIs(r, Cardinality({WNorm(xs[i]) : i \in 1..Len(xs)}))
 
